@@ -445,8 +445,87 @@ def _inline_helpers(tree: ast.Module) -> ast.Module:
     return tree
 
 
+def _inline_procedures(tree: ast.Module) -> ast.Module:
+    """``_helper(a, b)`` used once, as a statement, where the private module-level helper neither returns nor yields: the helper's
+    statements take the place of the call (parameters replaced by the argument names).  'Extract these lines into a private helper' and
+    its inverse are invisible to the rules."""
+    defs: dict[str, list] = {}
+    for n in tree.body:
+        if isinstance(n, ast.FunctionDef):
+            defs.setdefault(n.name, []).append(n)
+    calls: dict[str, int] = {}
+    for n in ast.walk(tree):
+        if isinstance(n, ast.Name) and isinstance(n.ctx, ast.Load) and n.id in defs:
+            calls[n.id] = calls.get(n.id, 0) + 1
+    cands = {}
+    for name, ds in defs.items():
+        if len(ds) != 1 or not name.startswith("_") or name.startswith("__") or calls.get(name) != 1 or ds[0].decorator_list:
+            continue
+        d = ds[0]
+        body = [b for b in d.body if not (isinstance(b, ast.Expr) and isinstance(b.value, ast.Constant))]
+        a = d.args
+        if a.vararg or a.kwarg or a.kwonlyargs or a.posonlyargs or a.defaults or not body:
+            continue
+        if any(isinstance(x, (ast.Return, ast.Yield, ast.YieldFrom, ast.Await, ast.FunctionDef, ast.AsyncFunctionDef, ast.Lambda, ast.Global, ast.Nonlocal)) for b in body for x in ast.walk(b)):
+            continue
+        cands[name] = (d, body, [x.arg for x in a.args])
+    if not cands:
+        return tree
+
+    class Splice(ast.NodeTransformer):
+        def __init__(self):
+            self.done = set()
+
+        def _block(self, stmts, fn_names):
+            out = []
+            for st in stmts:
+                if isinstance(st, ast.Expr) and isinstance(st.value, ast.Call) and isinstance(st.value.func, ast.Name) and st.value.func.id in cands and not st.value.keywords \
+                        and all(isinstance(x, ast.Name) for x in st.value.args):
+                    d, body, params = cands[st.value.func.id]
+                    if len(params) == len(st.value.args):
+                        m = {p_: x.id for p_, x in zip(params, st.value.args)}
+                        stored = {x.id for b in body for x in ast.walk(b) if isinstance(x, ast.Name) and isinstance(x.ctx, ast.Store)}
+                        if not (stored & set(params)):
+                            for loc in stored:
+                                if loc in fn_names and loc not in m:
+                                    m[loc] = loc + "_h"
+
+                            class Ren(ast.NodeTransformer):
+                                def visit_Name(self, n):
+                                    return ast.copy_location(ast.Name(id=m.get(n.id, n.id), ctx=n.ctx), n)
+                            for b in body:
+                                nb = Ren().visit(copy.deepcopy(b))
+                                for x in ast.walk(nb):
+                                    if hasattr(x, "lineno"):
+                                        x.lineno = st.lineno
+                                        x.end_lineno = getattr(st, "end_lineno", st.lineno)
+                                out.append(nb)
+                            self.done.add(st.value.func.id)
+                            continue
+                out.append(st)
+            return out
+
+        def visit_FunctionDef(self, node):
+            if node.name in cands:
+                return node
+            names = {x.id for x in ast.walk(node) if isinstance(x, ast.Name)} | {a.arg for a in node.args.args}
+            for sub in ast.walk(node):
+                for fld in ("body", "orelse", "finalbody"):
+                    b = getattr(sub, fld, None)
+                    if isinstance(b, list) and b and isinstance(b[0], ast.stmt):
+                        setattr(sub, fld, self._block(b, names))
+            return node
+
+        visit_AsyncFunctionDef = visit_FunctionDef
+
+    sp = Splice()
+    sp.visit(tree)
+    return tree
+
+
 def normalize(tree: ast.Module) -> ast.Module:
     tree = _inline_helpers(tree)
+    tree = _inline_procedures(tree)
     tree = _Expr().visit(tree)
     tree = _Stmt().visit(tree)
     tree = _Expr().visit(tree)
